@@ -348,7 +348,9 @@ def shard(ctx):
             if sa == "crash" or sb == "crash":
                 ctx.inconclusive("inline-crash")
             elif isinstance(sa, dict) != isinstance(sb, dict):
-                ctx.violation("inline:error-mismatch", "inlining changes error behaviour: call=%s inline=%s\n%s---\n%s--- doc %s" % (sa, sb, a, b, docs[:300]),
+                used = set(json.dumps(P["rules"][0]["body"]).count('"%s"' % prm) > 0 and prm for prm in P["rules"][0]["params"]) - {False}
+                unused = [prm for prm in P["rules"][0]["params"] if prm not in used]
+                ctx.violation("inline:error-mismatch" + (":argument-of-unused-parameter-errors" if unused and not isinstance(sa, dict) else ""), "inlining changes error behaviour: call=%s inline=%s\n%s---\n%s--- doc %s" % (sa, sb, a, b, docs[:300]),
                               {"kind": "pair", "a": a, "b": b, "data": docs, "only": ["c"]})
             else:
                 ctx.inconclusive("inline-both-error")
